@@ -54,6 +54,37 @@ def encodeList (tight : Bool) : List Node → List Nat
   | n :: ns => encode tight n ++ (if ns.isEmpty then [] else pad (encode tight n).length ++ encodeList tight ns)
 end
 
+/-- a key can be written: it contains no NUL -/
+def keyOk (k : List Nat) : Bool := k.all (· != 0)
+
+/-! ### the documented layout as a relation
+
+`encode` is one writer.  The documented layout leaves choices open: the contents of the padding
+words, whether a structure without value and children ends right after its key (`tight`) or keeps
+Padding1, whether padding follows a value that ends its structure or the last child of a structure,
+and `wType` is not needed to read the structure back.  `IsNode n ws` says that the words `ws` (exactly
+`wLength` bytes) are *a* layout of the structure `n` under any of these choices, made per structure. -/
+
+mutual
+def IsNode : Node → List Nat → Prop
+  | .mk key value text children, ws =>
+    ∃ (wType : Nat) (p1 p2 body : List Nat),
+      keyOk key = true ∧ IsNodes children body ∧
+      -- Padding1 brings the value to a 32-bit boundary; a structure with neither value nor children may omit it
+      (p1.length = key.length % 2 ∨ (p1 = [] ∧ value = [] ∧ body = [])) ∧
+      -- Padding2 brings the children to a 32-bit boundary; without children it may be omitted
+      (p2.length = value.length % 2 ∨ (p2 = [] ∧ body = [])) ∧
+      ws = [2 * (4 + key.length + p1.length + value.length + p2.length + body.length),
+            (if text then value.length else 2 * value.length), wType]
+           ++ key ++ [0] ++ p1 ++ value ++ p2 ++ body
+/-- siblings: each starts on a 32-bit boundary; the padding after the last one may be omitted -/
+def IsNodes : List Node → List Nat → Prop
+  | [], ws => ws = []
+  | n :: ns, ws =>
+    ∃ (w pad rest : List Nat), IsNode n w ∧ IsNodes ns rest ∧
+      (pad.length = w.length % 2 ∨ (pad = [] ∧ ns = [])) ∧ ws = w ++ pad ++ rest
+end
+
 /-! ### abstract content -/
 
 /-- `String`: key and the stored value (text; by convention it ends with a NUL, which is not part
@@ -104,6 +135,11 @@ def VInfo.node (v : VInfo) : Node := .mk v.key v.value false (v.blocks.map VBloc
 
 /-- the words of the resource -/
 def VInfo.encode (tight : Bool) (v : VInfo) : List Nat := Spec.encode tight v.node
+
+/-- `ws` is a version resource block with content `v`: it starts with a layout of the root
+structure (any of the documented choices, per structure); what follows the root is not part of
+the resource. -/
+def VInfo.IsBlock (v : VInfo) (ws : List Nat) : Prop := ∃ root tl, IsNode v.node root ∧ ws = root ++ tl
 
 /-- a stored text value without its terminating NUL (one NUL, if there is one) -/
 def stripTerminator (v : List Nat) : List Nat :=
@@ -183,9 +219,6 @@ def translationValues (es : List SEvent) : List (List Nat) := es.filterMap trans
 
 /-! ### well-formedness (decidable) -/
 
-/-- a key can be written: it contains no NUL -/
-def keyOk (k : List Nat) : Bool := k.all (· != 0)
-
 def VStr.wf (s : VStr) : Bool := keyOk s.key
 def VTable.wf (t : VTable) : Bool := keyOk t.lang && t.strings.all VStr.wf
 def VVar.wf (x : VVar) : Bool := keyOk x.key
@@ -207,6 +240,57 @@ def VBlock.u16 : VBlock → Bool
   | .stringInfo ts => ts.all VTable.u16
   | .varInfo vs => vs.all VVar.u16
 def VInfo.u16 (v : VInfo) : Bool := u16s v.key && u16s v.value && v.blocks.all VBlock.u16
+
+/-! ### deciding the layout relation
+
+`IsNode` quantifies over the choices; given the abstract structure they can be read off the words.
+`isNodeB` / `isNodesB` do that (the children through a checker for the level below),
+`VInfo.isBlockB` is the resulting test for a whole block.  Sound for the relation
+(`Lemmas/VersionLayout.lean: isBlockB_sound`), so it can serve as its decidable form. -/
+
+/-- `ws = pre ++ rest`? -/
+def stripPrefix (pre ws : List Nat) : Option (List Nat) :=
+  if ws.take pre.length = pre then some (ws.drop pre.length) else none
+
+/-- are `ws` a layout of a structure with this key, value and type, its children accepted by `bodyOk`? -/
+def isNodeB (key value : List Nat) (text : Bool) (bodyOk : List Nat → Bool) (ws : List Nat) : Bool :=
+  match ws with
+  | wLength :: vLength :: _wType :: rest =>
+    wLength == 2 * ws.length && vLength == (if text then value.length else 2 * value.length) && keyOk key &&
+    match stripPrefix (key ++ [0]) rest with
+    | none => false
+    | some after =>
+      -- neither value nor children and Padding1 omitted
+      (after.isEmpty && value.isEmpty && bodyOk []) ||
+      -- Padding1, the value, then either nothing, or Padding2 and the children
+      (decide (key.length % 2 ≤ after.length) &&
+       match stripPrefix value (after.drop (key.length % 2)) with
+       | none => false
+       | some after2 =>
+         (after2.isEmpty && bodyOk []) ||
+         (decide (value.length % 2 ≤ after2.length) && bodyOk (after2.drop (value.length % 2))))
+  | _ => false
+
+/-- are `ws` a layout of siblings, the i-th accepted by the i-th checker? -/
+def isNodesB : List (List Nat → Bool) → List Nat → Bool
+  | [], ws => ws.isEmpty
+  | c :: cs, ws =>
+    let n := ws.headD 0 / 2
+    decide (n ≤ ws.length) && c (ws.take n) &&
+    (if cs.isEmpty then (ws.drop n).isEmpty || decide ((ws.drop n).length = n % 2)
+     else decide (n % 2 ≤ (ws.drop n).length) && isNodesB cs ((ws.drop n).drop (n % 2)))
+
+def VStr.isB (s : VStr) : List Nat → Bool := isNodeB s.key s.stored true (isNodesB [])
+def VTable.isB (t : VTable) : List Nat → Bool := isNodeB t.lang [] true (isNodesB (t.strings.map VStr.isB))
+def VVar.isB (x : VVar) : List Nat → Bool := isNodeB x.key x.value false (isNodesB [])
+def VBlock.isB : VBlock → List Nat → Bool
+  | .stringInfo ts => isNodeB kStringFileInfo [] true (isNodesB (ts.map VTable.isB))
+  | .varInfo vs => isNodeB kVarFileInfo [] true (isNodesB (vs.map VVar.isB))
+def VInfo.isRootB (v : VInfo) : List Nat → Bool := isNodeB v.key v.value false (isNodesB (v.blocks.map VBlock.isB))
+
+/-- does the block start with a layout of `v`'s root structure (of the length its `wLength` says)? -/
+def VInfo.isBlockB (v : VInfo) (ws : List Nat) : Bool :=
+  decide (ws.headD 0 / 2 ≤ ws.length) && v.isRootB (ws.take (ws.headD 0 / 2))
 
 /-! ### language keys -/
 
@@ -230,5 +314,85 @@ def langOfKey (k : List Nat) : Option (Nat × Nat) :=
     | some l, some c => some (l, c)
     | _, _ => none
   else none
+
+/-! ### text (UTF-16, from the Unicode standard)
+
+A code unit in D800..DBFF (high surrogate) followed by one in DC00..DFFF (low surrogate) encodes
+the scalar value `0x10000 + (high - 0xD800) * 0x400 + (low - 0xDC00)`; every other code unit
+outside D800..DFFF encodes itself; a surrogate that is not part of such a pair is ill-formed and
+is read as U+FFFD REPLACEMENT CHARACTER.  Text is the list of scalar values. -/
+
+def isHigh (u : Nat) : Bool := 0xD800 ≤ u && u ≤ 0xDBFF
+def isLow (u : Nat) : Bool := 0xDC00 ≤ u && u ≤ 0xDFFF
+
+/-- the text of a list of UTF-16 code units (ill-formed units replaced) -/
+def text : List Nat → List Nat
+  | [] => []
+  | [u] => [if isHigh u || isLow u then 0xFFFD else u]
+  | u :: u2 :: rest =>
+    if isHigh u && isLow u2 then (0x10000 + (u - 0xD800) * 0x400 + (u2 - 0xDC00)) :: text rest
+    else (if isHigh u || isLow u then 0xFFFD else u) :: text (u2 :: rest)
+
+/-- well-formed UTF-16: every surrogate is part of a high, low pair -/
+def wellFormed16 : List Nat → Bool
+  | [] => true
+  | [u] => !(isHigh u || isLow u)
+  | u :: u2 :: rest =>
+    if isHigh u && isLow u2 then wellFormed16 rest
+    else !(isHigh u || isLow u) && wellFormed16 (u2 :: rest)
+
+/-! ### what the queries answer (from the abstract content)
+
+A language is the pair (language id, codepage) that a string table's key "LLLLCCCC" names
+(`langOfKey`); keys and values are reported as text. -/
+
+/-- all string tables in stored order -/
+def VBlock.tables : VBlock → List VTable
+  | .stringInfo ts => ts
+  | .varInfo _ => []
+def VInfo.tables (v : VInfo) : List VTable := v.blocks.flatMap VBlock.tables
+
+/-- the (key, value) pairs of one table as text, in stored order, values without their terminator -/
+def VTable.entries (t : VTable) : List (List Nat × List Nat) :=
+  t.strings.map fun s => (text s.key, text (stripTerminator s.stored))
+
+/-- `fixed()`: the 26 words of VS_FIXEDFILEINFO, if present -/
+def fixedInfoOf (v : VInfo) : Option (List Nat) := v.fixed
+
+/-- `translation()`: the (language, codepage) pairs of the Translation var -/
+def translationsOf (v : VInfo) : List (Nat × Nat) := v.translations
+
+/-- `strings(lang)`: every (key, value) of the tables that name `lang`, in stored order -/
+def stringsOf (v : VInfo) (lang : Nat × Nat) : List (List Nat × List Nat) :=
+  (v.tables.filter fun t => langOfKey t.lang = some lang).flatMap VTable.entries
+
+/-- `value(lang, key)`: the value stored under `key` in the tables that name `lang`, `none` when
+there is none (when the key is stored more than once: the last one; the documented layout stores
+each key once per language, see `keysDistinct`) -/
+def valueOf (v : VInfo) (lang : Nat × Nat) (key : List Nat) : Option (List Nat) :=
+  ((stringsOf v lang).filter fun e => e.1 = key).getLast?.map (·.2)
+
+/-- `file_info().strings`: one map per string table, keyed by the language the table names -/
+def stringMapsOf (v : VInfo) : List ((Nat × Nat) × List (List Nat × List Nat)) :=
+  v.tables.filterMap fun t => (langOfKey t.lang).map fun l => (l, t.entries)
+
+/-! ### side conditions of the query theorems (decidable) -/
+
+def distinct {α : Type} [DecidableEq α] : List α → Bool
+  | [] => true
+  | a :: l => !l.contains a && distinct l
+
+/-- every string table key is 8 hex digits (names a language) -/
+def VInfo.langKeysOk (v : VInfo) : Bool := v.tables.all fun t => (langOfKey t.lang).isSome
+/-- every string key is well-formed UTF-16 (`value` compares keys exactly, the other queries read them as text) -/
+def VInfo.keysValid (v : VInfo) : Bool := v.tables.all fun t => t.strings.all fun s => wellFormed16 s.key
+/-- no two string tables name the same language -/
+def VInfo.langsDistinct (v : VInfo) : Bool := distinct (v.tables.map fun t => langOfKey t.lang)
+/-- within a table no two keys are the same text -/
+def VInfo.keysDistinct (v : VInfo) : Bool := v.tables.all fun t => distinct (t.strings.map fun s => text s.key)
+
+/-- under these conditions all string queries are determined by the abstract content alone -/
+def VInfo.queriesDetermined (v : VInfo) : Bool :=
+  v.langKeysOk && v.keysValid && v.langsDistinct && v.keysDistinct
 
 end Pelite.Version.Spec
